@@ -517,3 +517,90 @@ def run_queries(ctx, bg, queries, twin="twin:state", extra_terms=()):
   for q in queries:
     ctx.prove(sess, q["name"], q["goal"], q.get("guard", True), names=q.get("names"), replay=q.get("replay"), desc=q.get("desc"))
   return sess
+
+
+class OneShot(kh.Session):
+  """Session whose every query runs in a FRESH non-incremental z3 solver.  kh.Session checks under push/pop, which puts z3
+  into its incremental mode; for nonlinear real arithmetic that mode returns `unknown` on queries the one-shot solver
+  decides in milliseconds (observed on polynomial identities with array reads)."""
+
+  def __init__(self, background=(), timeout_ms=20000, tactic=None):
+    self.bgs = [core.zbool(b) for b in background if b is not True]
+    self.timeout_ms, self.tactic = timeout_ms, tactic
+    self.results, self.log = [], None
+
+  def add(self, *bs):
+    self.bgs += [core.zbool(b) for b in bs if b is not True]
+
+  def _check(self, extra):
+    import time
+
+    s = z3.Solver() if self.tactic is None else z3.Tactic(self.tactic).solver()
+    s.set("timeout", self.timeout_ms)
+    for b in self.bgs:
+      s.add(b)
+    for e in extra:
+      if e is True:
+        continue
+      s.add(core.zbool(e))
+    t0 = time.time()
+    r = str(s.check())
+    dt = time.time() - t0
+    return r, dt, (s.model() if r == "sat" else None)
+
+
+def oneshot(ctx, background=(), tactic=None):
+  return OneShot(background, ctx.timeout_ms, tactic)
+
+
+def abstract_ufs(exprs):
+  """replace every application of an uninterpreted function (arity > 0) by a fresh real constant (same application ->
+  same constant).  Over-approximation: `unsat` stays sound; lets the pure nlsat tactic be used."""
+  table, cache = {}, {}
+
+  def walk(e):
+    i = e.get_id()
+    if i in cache:
+      return cache[i]
+    if z3.is_app(e) and e.num_args() > 0:
+      kids = [walk(c) for c in e.children()]
+      if e.decl().kind() == z3.Z3_OP_UNINTERPRETED:
+        key = (e.decl().name(), tuple(k.get_id() for k in kids))
+        if key not in table:
+          table[key] = (z3.Real(f"uf!{len(table)}"), kids)
+        r = table[key][0]
+      else:
+        r = e.decl()(*kids)
+    else:
+      r = e
+    cache[i] = r
+    return r
+
+  return [walk(core.zbool(e) if not is_sym(e) else e) for e in exprs]
+
+
+# ------------------------------------------------------------------------------------------------ H-mode interpreter with globally unique fresh names
+import contextlib
+import itertools
+
+_GLOBAL_FRESH = itertools.count()
+
+
+class UInterp(core.Interp):
+  """host.HostRun creates one Interp per thread and every Interp numbers its fresh symbols (sqrt!k, oob!k, div!k) from 0,
+  so two threads of one host run would share `sqrt!0`.  This subclass draws the numbers from one global counter."""
+
+  def __init__(self, *a, **k):
+    super().__init__(*a, **k)
+    self.fresh = _GLOBAL_FRESH
+
+
+@contextlib.contextmanager
+def hostrun(interp_cls=UInterp, **kw):
+  saved = host.Interp
+  host.Interp = interp_cls
+  try:
+    with host.HostRun(**kw) as hr:
+      yield hr
+  finally:
+    host.Interp = saved
